@@ -483,7 +483,7 @@ def run(tier, seed):
                 for cstate, point in (t["crash"] or []):
                     n_crash += 1
                     ck = _h(cstate)
-                    crem = 2 if (thorough and not hist and stride != 1) else 1
+                    crem = 1   # a crash state is followed by every single run (not by pairs of runs)
                     if seen.get(ck, 0) < crem:
                         seen[ck] = crem
                         h3 = hist + [["crash"] + list(t["op"][1:]) + [list(point)]]
@@ -511,7 +511,7 @@ def run(tier, seed):
                     len(ops), " and from every crash-free depth-1 state" if thorough else "",
                     "16th" if thorough else "512th",
                     " (every single byte for 3 designated runs)" if thorough else "",
-                    " and, from the empty cache, by every pair of run operations" if thorough else ""),
+                    ""),
         "exhaustive": True,
     }
     res.assumptions = [
